@@ -4,6 +4,7 @@ package main
 
 import (
 	"fmt"
+	"os"
 	"runtime/debug"
 	"sort"
 	"strings"
@@ -72,7 +73,7 @@ type PathResult struct {
 	Witness     *Witness
 	Funcs       map[*ssa.Function]bool
 	Inconclusive []string
-	QFeas, QAssert, QSat, QUnsat, QUnknown, CacheHits int
+	QFeas, QAssert, QSat, QUnsat, QUnknown, CacheHits, SynHits, OneShot int
 	Stubs       map[string]bool
 }
 
@@ -103,6 +104,7 @@ type Path struct {
 	dec    []byte
 	pos    int
 	pc     []*Term
+	pcSet  map[*Term]bool
 	models []*Model
 	emitted map[*Term]bool
 	declared map[string]bool
@@ -129,7 +131,7 @@ type Path struct {
 
 func (e *Engine) newPath(sol *Solver, prefix []byte) *Path {
 	p := &Path{eng: e, tt: NewTermTable(), sol: sol, prefix: prefix,
-		emitted: map[*Term]bool{}, declared: map[string]bool{},
+		emitted: map[*Term]bool{}, declared: map[string]bool{}, pcSet: map[*Term]bool{},
 		globals: map[*ssa.Global]*Value{}, pkgInit: map[*ssa.Package]int{},
 		names: map[string]int{}, mutexes: map[*Value]int{}, onceDone: map[*Value]bool{},
 		ghost: map[string]Value{}, knownPred: map[string]*Term{},
@@ -200,6 +202,7 @@ func (p *Path) assertPC(c *Term) {
 		return
 	}
 	p.pc = append(p.pc, c)
+	p.notePC(c)
 	p.define(c)
 	p.sol.Send("(assert " + c.Ref() + ")")
 	// filter cached models
@@ -212,6 +215,55 @@ func (p *Path) assertPC(c *Term) {
 		}
 		p.models = keep
 	}
+}
+
+// notePC records c (and its conjuncts) as known facts for syntactic short-cuts.
+func (p *Path) notePC(c *Term) {
+	if p.pcSet[c] {
+		return
+	}
+	p.pcSet[c] = true
+	switch c.Op {
+	case OBAnd:
+		p.notePC(c.Args[0])
+		p.notePC(c.Args[1])
+	case OBNot:
+		if c.Args[0].Op == OBOr {
+			p.notePC(p.tt.Not(c.Args[0].Args[0]))
+			p.notePC(p.tt.Not(c.Args[0].Args[1]))
+		}
+	}
+}
+
+// known returns +1 if c is syntactically implied by the path condition, -1 if its negation is, 0 otherwise.
+func (p *Path) known(c *Term) int {
+	if p.pcSet[c] {
+		return 1
+	}
+	if p.pcSet[p.tt.Not(c)] {
+		return -1
+	}
+	switch c.Op {
+	case OBAnd:
+		a, b := p.known(c.Args[0]), p.known(c.Args[1])
+		if a == 1 && b == 1 {
+			return 1
+		}
+		if a == -1 || b == -1 {
+			return -1
+		}
+	case OBOr:
+		a, b := p.known(c.Args[0]), p.known(c.Args[1])
+		if a == 1 || b == 1 {
+			return 1
+		}
+		if a == -1 && b == -1 {
+			return -1
+		}
+	case OBNot:
+		return -p.known(c.Args[0])
+	}
+	return 0
 }
 
 // query checks satisfiability of PC ∧ c. Returns "sat"/"unsat"/"unknown"; on sat caches a model.
@@ -228,24 +280,45 @@ func (p *Path) query(c *Term, assertion bool) string {
 	}
 	p.define(c)
 	if assertion {
-		p.sol.SetTimeout(p.eng.cfg.AssertTimeoutMs)
 		p.res.QAssert++
 	} else {
-		p.sol.SetTimeout(p.eng.cfg.FeasTimeoutMs)
 		p.res.QFeas++
 	}
+	// stage 1: incremental solver, short cap
+	p.sol.SetTimeout(p.eng.cfg.IncTimeoutMs)
 	p.sol.Send("(push 1)")
 	p.sol.Send("(assert " + c.Ref() + ")")
 	r := p.sol.CheckSat()
-	if p.sol.errSeen != "" {
-		p.res.Inconclusive = append(p.res.Inconclusive, "solver error: "+p.sol.errSeen)
-		p.sol.errSeen = ""
-		r = "unknown"
+	p.checkSolverErr(p.sol, &r)
+	var m *Model
+	if r == "sat" {
+		m = p.getModel(p.sol, func(t *Term) bool { return p.emitted[t] }, func(n string) bool { return p.declared[n] })
+	}
+	p.sol.Send("(pop 1)")
+	if p.sol.dead {
+		panic(pathEnd{endAborted, "solver died"})
+	}
+	// stage 2: one-shot (non-incremental) solving of the whole problem: z3 then uses its
+	// bit-blasting tactic, which decides in milliseconds what the incremental core may not
+	if r == "unknown" {
+		p.res.OneShot++
+		to := p.eng.cfg.FeasTimeoutMs
+		if assertion {
+			to = p.eng.cfg.AssertTimeoutMs
+		}
+		tq := time.Now()
+		r, m = p.oneShot(c, to)
+		if d := time.Since(tq); d > 5*time.Second && p.eng.cfg.Progress {
+			fmt.Fprintf(os.Stderr, "  slow one-shot query %.1fs -> %s assertion=%v at %s pc=%d dec=%d\n", d.Seconds(), r, assertion, p.site(p.curFrame), len(p.pc), len(p.dec))
+			if dir := os.Getenv("VX_SLOWDIR"); dir != "" {
+				p.dumpQuery(dir, c)
+			}
+		}
 	}
 	switch r {
 	case "sat":
 		p.res.QSat++
-		if m := p.getModel(); m != nil {
+		if m != nil {
 			// sanity: the model must satisfy c and the PC under our evaluator
 			ok := m.Eval(c, map[*Term]uint64{}) == 1
 			if ok {
@@ -271,25 +344,90 @@ func (p *Path) query(c *Term, assertion bool) string {
 	default:
 		p.res.QUnknown++
 	}
-	p.sol.Send("(pop 1)")
-	if p.sol.dead {
-		panic(pathEnd{endAborted, "solver died"})
-	}
 	return r
 }
 
-func (p *Path) getModel() *Model {
+func (p *Path) checkSolverErr(sol *Solver, r *string) {
+	if sol.errSeen != "" {
+		p.res.Inconclusive = append(p.res.Inconclusive, "solver error: "+sol.errSeen)
+		sol.errSeen = ""
+		*r = "unknown"
+	}
+}
+
+// script renders PC ∧ c as a standalone SMT-LIB2 problem (without check-sat).
+func (p *Path) script(c *Term) (string, map[*Term]bool, map[string]bool) {
+	var sb strings.Builder
+	seen := map[*Term]bool{}
+	decl := map[string]bool{}
+	var walk func(t *Term)
+	walk = func(t *Term) {
+		if t.Op == OConst || seen[t] {
+			return
+		}
+		seen[t] = true
+		for _, a := range t.Args {
+			walk(a)
+		}
+		switch t.Op {
+		case OVar:
+			if !decl[t.Name] {
+				decl[t.Name] = true
+				fmt.Fprintf(&sb, "(declare-const %s %s)\n", smtName(t.Name), t.S.SMT())
+			}
+		case OApp:
+			if !decl[t.Name] {
+				decl[t.Name] = true
+				fmt.Fprintf(&sb, "(declare-fun %s ((_ BitVec 64)) %s)\n", smtName(t.Name), t.S.SMT())
+			}
+			fmt.Fprintf(&sb, "(define-fun %s () %s %s)\n", t.Ref(), t.S.SMT(), t.Body())
+		default:
+			fmt.Fprintf(&sb, "(define-fun %s () %s %s)\n", t.Ref(), t.S.SMT(), t.Body())
+		}
+	}
+	for _, q := range p.pc {
+		walk(q)
+		fmt.Fprintf(&sb, "(assert %s)\n", q.Ref())
+	}
+	walk(c)
+	fmt.Fprintf(&sb, "(assert %s)\n", c.Ref())
+	return sb.String(), seen, decl
+}
+
+func (p *Path) oneShot(c *Term, timeoutMs int) (string, *Model) {
+	aux := p.eng.auxSolver(p.sol)
+	if aux == nil {
+		return "unknown", nil
+	}
+	txt, seen, decl := p.script(c)
+	aux.Reset()
+	aux.SetTimeout(timeoutMs)
+	aux.Send(txt)
+	r := aux.CheckSat()
+	p.checkSolverErr(aux, &r)
+	var m *Model
+	if r == "sat" {
+		m = p.getModel(aux, func(t *Term) bool { return seen[t] }, func(n string) bool { return decl[n] })
+	}
+	if aux.dead {
+		p.eng.dropAux(p.sol)
+	}
+	return r, m
+}
+
+func (p *Path) getModel(sol *Solver, defined func(*Term) bool, declared func(string) bool) *Model {
 	m := &Model{Vars: map[string]uint64{}, UFs: map[string]map[uint64]uint64{}}
 	var exprs []string
+	var vars []*Term
 	for _, v := range p.tt.Vars {
-		if p.declared[v.Name] {
+		if declared(v.Name) {
+			vars = append(vars, v)
 			exprs = append(exprs, v.Ref())
 		}
 	}
-	nv := len(exprs)
 	var apps []*Term
 	for _, a := range p.tt.Apps {
-		if p.emitted[a] {
+		if defined(a) {
 			apps = append(apps, a)
 			exprs = append(exprs, a.Ref())
 			exprs = append(exprs, a.Args[0].Ref())
@@ -298,19 +436,16 @@ func (p *Path) getModel() *Model {
 	if len(exprs) == 0 {
 		return m
 	}
-	vals, err := p.sol.GetValues(exprs)
+	vals, err := sol.GetValues(exprs)
 	if err != nil {
 		p.res.Inconclusive = append(p.res.Inconclusive, "get-value: "+err.Error())
 		return nil
 	}
 	i := 0
-	for _, v := range p.tt.Vars {
-		if p.declared[v.Name] {
-			m.Vars[v.Name] = vals[i]
-			i++
-		}
+	for _, v := range vars {
+		m.Vars[v.Name] = vals[i]
+		i++
 	}
-	_ = nv
 	for _, a := range apps {
 		val, idx := vals[i], vals[i+1]
 		i += 2
@@ -356,8 +491,10 @@ func (p *Path) branch(c *Term) bool {
 			p.assertPC(p.tt.Not(c))
 			return false
 		case 't':
+			p.notePC(c)
 			return true
 		default:
+			p.notePC(p.tt.Not(c))
 			return false
 		}
 	}
@@ -365,12 +502,22 @@ func (p *Path) branch(c *Term) bool {
 		panic(pathEnd{endDepth, fmt.Sprintf("decision depth %d exceeded (unwinding bound)", p.eng.cfg.MaxDepth)})
 	}
 	p.pos++
-	rt := p.query(c, false)
-	canT := rt != "unsat"
-	canF := true
-	if canT {
-		rf := p.query(p.tt.Not(c), false)
-		canF = rf != "unsat"
+	var canT, canF bool
+	switch p.known(c) {
+	case 1:
+		canT, canF = true, false
+		p.res.SynHits++
+	case -1:
+		canT, canF = false, true
+		p.res.SynHits++
+	default:
+		rt := p.query(c, false)
+		canT = rt != "unsat"
+		canF = true
+		if canT {
+			rf := p.query(p.tt.Not(c), false)
+			canF = rf != "unsat"
+		}
 	}
 	switch {
 	case canT && canF:
@@ -384,9 +531,11 @@ func (p *Path) branch(c *Term) bool {
 		return true
 	case canT:
 		p.dec = append(p.dec, 't')
+		p.notePC(c)
 		return true
 	default:
 		p.dec = append(p.dec, 'f')
+		p.notePC(p.tt.Not(c))
 		return false
 	}
 }
@@ -607,4 +756,14 @@ func (p *Path) evalObs(v Value, m *Model, memo map[*Term]uint64) string {
 		return fmt.Sprintf("%q", sb.String())
 	}
 	return "?"
+}
+
+// dumpQuery writes a standalone SMT-LIB2 file for PC ∧ c (debugging aid).
+func (p *Path) dumpQuery(dir string, c *Term) {
+	txt, _, _ := p.script(c)
+	p.eng.mu.Lock()
+	p.eng.nDump++
+	n := p.eng.nDump
+	p.eng.mu.Unlock()
+	os.WriteFile(fmt.Sprintf("%s/slow%d.smt2", dir, n), []byte(txt+"(check-sat)\n"), 0o644)
 }
